@@ -305,6 +305,15 @@ func c01(c *core.Ctx) {
 							if bi, ok := x.Call.Value.(*ssa.Builtin); ok && (bi.Name() == "delete" || bi.Name() == "copy" || bi.Name() == "clear") && len(x.Call.Args) > 0 {
 								target = x.Call.Args[0]
 							}
+							// a container of the sync packages kept in a field: Store / LoadOrStore / Delete / Add ... on its address write it
+							if o := core.CalleeObj(x); o != nil && o.Pkg() != nil && (o.Pkg().Path() == "sync" || o.Pkg().Path() == "sync/atomic") && len(x.Call.Args) > 0 {
+								switch o.Name() {
+								case "Store", "LoadOrStore", "LoadAndDelete", "Delete", "Swap", "CompareAndSwap", "Add", "Range":
+									if o.Name() != "Range" {
+										target = x.Call.Args[0]
+									}
+								}
+							}
 						}
 						if target == nil {
 							continue
